@@ -59,6 +59,11 @@ def members():
             m["activity"] = "sleep"
         if m["topology"] == "socket":
             m["model"] = "thread"  # the socket server executes inside its host gateway, whose model it inherits
+            # ... and shares that process with the forwarder of the via members: stopping, killing or saturating it is a
+            # fault of the *forwarding* gateway, which changes what terminate() can do for the proxied workers (they were
+            # not started locally and then go away by themselves, C11) - outside this property's domain
+            if m["activity"] in ("sigstop", "killed", "busy", "sigint_ignored", "nondaemon_threads"):
+                m["activity"] = "sleep"
         if m["activity"] == "sigint_ignored" and m["model"] == "main_thread_only":
             pass
         return m
@@ -170,7 +175,11 @@ class Terminate(Part):
                             except OSError:
                                 pass
                 t0 = time.time()
-                group.terminate(timeout=case["timeout"])
+                try:
+                    group.terminate(timeout=case["timeout"])
+                except BaseException as e:  # noqa: BLE001
+                    raise Violation("terminate.raises", f"terminate({case['timeout']}) raised {type(e).__name__}: {e} for "
+                                    f"{[p[0] for p in pids]}", exc=e) from None
                 took = time.time() - t0
             if wd.fired:
                 raise Violation("terminate.hang", f"case did not finish within 120 s: {case}")
